@@ -15,26 +15,30 @@ def stmtEvents (n : Nat) : List Ev := List.replicate n Ev.push ++ [Ev.lhs]
 /-- `Active::Active(const Expression&)`, `Active::operator=(const Expression&)`, `ActiveReference::operator=(Expression)`:
     reserve `E::n_active`, push one operation per active leaf, close the statement -/
 def siteScalarAssign (reserve : Nat) (nActive : Nat) : List Ev := Ev.check reserve :: stmtEvents nActive
-def siteActiveCtor (nActive : Nat) := siteScalarAssign (Active_0 nActive 0 0 0 0 0 0) nActive
-def siteActiveAssign (nActive : Nat) := siteScalarAssign (Active_3 nActive 0 0 0 0 0 0) nActive
+def siteActiveCtor (nActive : Nat) := siteScalarAssign (Active_1 nActive 0 0 0 0 0 0) nActive
+def siteActiveAssign (nActive : Nat) := siteScalarAssign (Active_4 nActive 0 0 0 0 0 0) nActive
 def siteActiveRefAssign (nActive : Nat) := siteScalarAssign (ActiveReference_2 nActive 0 0 0 0 0 0) nActive
 
 /-- copy assignment `x = y` (`Active::operator=(const Active&)` ×2, `ActiveReference` ×2): reserve 1, push 1 -/
 def siteCopyAssign (reserve : Nat) : List Ev := Ev.check reserve :: stmtEvents 1
-def siteActiveCopy1 := siteCopyAssign (Active_1 0 0 0 0 0 0 0)
-def siteActiveCopy2 := siteCopyAssign (Active_2 0 0 0 0 0 0 0)
+def siteActiveCopy1 := siteCopyAssign (Active_2 0 0 0 0 0 0 0)
+def siteActiveCopy2 := siteCopyAssign (Active_3 0 0 0 0 0 0 0)
 def siteActiveRefCopy1 := siteCopyAssign (ActiveReference_0 0 0 0 0 0 0 0)
 def siteActiveRefCopy2 := siteCopyAssign (ActiveReference_1 0 0 0 0 0 0 0)
 
+/-- `Active(const PType&, Index gradient_index)` — the temporary `Array::get_rvalue` / `FixedArray::get_rvalue` return for
+    an element of an active array: reserve 1, push 1 (finding F-70: the pinned constructor pushed without reserving) -/
+def siteActiveElemCtor := siteCopyAssign (Active_0 0 0 0 0 0 0 0)
+
 /-- `add_derivative_dependence(rhs, multiplier, n)`: reserve `n`, push the `k ≤ n` non-zero multipliers, close -/
 def siteAddDep (reserve : Nat) (k : Nat) : List Ev := Ev.check reserve :: stmtEvents k
-def siteActiveAddDep (n k : Nat) := siteAddDep (Active_4 0 0 n 0 0 0 0) k
+def siteActiveAddDep (n k : Nat) := siteAddDep (Active_5 0 0 n 0 0 0 0) k
 def siteActiveRefAddDep (n k : Nat) := siteAddDep (ActiveReference_3 0 0 n 0 0 0 0) k
 def siteActiveConstRefAddDep (n k : Nat) := siteAddDep (ActiveConstReference_0 0 0 n 0 0 0 0) k
 def siteStackAddDep (k : Nat) := siteAddDep (Stack_0 0 0 0 0 0 0 0) k          -- single dependence: k ≤ 1
 /-- `append_derivative_dependence`: reserve `n`, push `k ≤ n`, `update_lhs` (no statement event) -/
 def siteAppendDep (reserve : Nat) (k : Nat) : List Ev := Ev.check reserve :: List.replicate k Ev.push
-def siteActiveAppendDep (n k : Nat) := siteAppendDep (Active_5 0 0 n 0 0 0 0) k
+def siteActiveAppendDep (n k : Nat) := siteAppendDep (Active_6 0 0 n 0 0 0 0) k
 def siteActiveRefAppendDep (n k : Nat) := siteAppendDep (ActiveReference_4 0 0 n 0 0 0 0) k
 def siteActiveConstRefAppendDep (n k : Nat) := siteAppendDep (ActiveConstReference_1 0 0 n 0 0 0 0) k
 def siteStackAppendDep (k : Nat) := siteAppendDep (Stack_1 0 0 0 0 0 0 0) k
@@ -71,6 +75,23 @@ def siteIndexedFromScalar (size : Nat) := siteArrayFromScalar (IndexedArray_0 0 
 /-- active special matrix ← active scalar: one operation per STORED element (`stored ≤ size()`) -/
 def siteSpecialFromScalar (size stored : Nat) : List Ev :=
   Ev.check (SpecialMatrix_0 0 size 0 0 0 0 0) :: (List.replicate stored (stmtEvents 1)).flatten
+
+/-- `diag_vector(active rank-2 expression, offdiag)` (reduce.h): one reservation, then per diagonal element `nActive`
+    operations and a statement (finding F-69: the pinned function recorded without any reservation) -/
+def siteDiagVectorUpper (nActive n : Nat) := siteArrayAssign (reduce_2 nActive 0 n 0 0 0 0) nActive n
+def siteDiagVectorLower (nActive n : Nat) := siteArrayAssign (reduce_3 nActive 0 n 0 0 0 0) nActive n
+
+/-- matrix products with active operands (matmul.h `matmul_`): per result element, one
+    `push_derivative_dependence` of the inner extent `n` for each active operand (each reserves for itself), then `push_lhs` -/
+def siteMatmulElem (n : Nat) (lAct rAct : Bool) : List Ev :=
+  (if lAct then sitePushDep n else []) ++ (if rAct then sitePushDep n else []) ++ [Ev.lhs]
+/-- matrix × vector: one element per result row; matrix × matrix: `rows*cols` elements -/
+def siteMatmul (elems n : Nat) (lAct rAct : Bool) : List Ev := (List.replicate elems (siteMatmulElem n lAct rAct)).flatten
+/-- band matrix × active vector (`matmul_band`): row `i` records the in-band part of the row,
+    `j_start = i<LDiags ? 0 : i-LDiags`, `j_end_plus_1 = min(dim, i+UDiags+1)` -/
+def bandRowCount (dim ld ud i : Nat) : Nat := min dim (i + ud + 1) - (if i < ld then 0 else i - ld)
+def siteMatmulBandVec (dim ld ud : Nat) : List Ev :=
+  ((List.range dim).map fun i => sitePushDep (bandRowCount dim ld ud i) ++ [Ev.lhs]).flatten
 
 /-- number of `push_rhs` events of a stream -/
 def pushCount : List Ev → Nat
